@@ -75,31 +75,31 @@ theorem highlight_pg (s : SearchSt) (pgno : Nat) (e : Entry) (first ms me : Nat)
 
 /-- **first call of a fresh forward pass, SUCCESS**: the page returned contains the pattern and no page before it in
     pass order does -/
-theorem searchNext_first_success_fwd (exec : Exec) (c : Cache) (s : SearchSt) (d : Int) (hd : d > 0)
-    (hfresh : s.dir = 0) (hcov : Covered c) (hp : PgOk s.stopPgno0) (hok : StartOk c s.stopPgno0)
-    (hS : 0 ≤ s.stopSubno0 ∧ s.stopSubno0 ≤ 0xFFFF ∧ s.stopSubno0 ≠ ANY_SUBNO)
-    (h : (searchNext exec walkFuel c s d).res = .ret SEARCH_SUCCESS) :
-    PgOk (searchNext exec walkFuel c s d).st.pgPgno ∧
-    Matches exec c (searchNext exec walkFuel c s d).st.pgPgno (searchNext exec walkFuel c s d).st.pgSubno ∧
+theorem searchNext_first_success_fwd (sh : Shape) (exec : Exec) (c : Cache) (s : SearchSt) (d : Int) (hd : d > 0)
+    (hfresh : s.dir = 0) (hcov : Covered c) (hp : PgOk s.stopPgno0) (hok : StartOk sh c s.stopPgno0)
+    (hS : 0 ≤ s.stopSubno0 ∧ s.stopSubno0 ≤ 0xFFFF ∧ (sh.startExact = true ∨ s.stopSubno0 ≠ ANY_SUBNO))
+    (h : (searchNext sh exec walkFuel c s d).res = .ret SEARCH_SUCCESS) :
+    PgOk (searchNext sh exec walkFuel c s d).st.pgPgno ∧
+    Matches exec c (searchNext sh exec walkFuel c s d).st.pgPgno (searchNext sh exec walkFuel c s d).st.pgSubno ∧
     ∀ q t : Nat, PgOk q → Matches exec c q t →
-      passRank s.stopPgno0 s.stopSubno0 (searchNext exec walkFuel c s d).st.pgPgno
-        (searchNext exec walkFuel c s d).st.pgSubno ≤ passRank s.stopPgno0 s.stopSubno0 q t := by
+      passRank s.stopPgno0 s.stopSubno0 (searchNext sh exec walkFuel c s d).st.pgPgno
+        (searchNext sh exec walkFuel c s d).st.pgSubno ≤ passRank s.stopPgno0 s.stopSubno0 q t := by
   have hne : c.nCached ≠ 0 := by
-    intro h0; rw [searchNext_empty exec c s d h0] at h; revert h; decide
-  obtain ⟨f1, f2, f3, f4, f5, f6⟩ := prepare_fresh_fwd (s := s) hd hfresh
-  have hp' : PgOk (prepare s d).startPgno := by rw [f1]; exact hp
-  have hok' : StartOk c (prepare s d).startPgno := by rw [f1]; exact hok
-  have hst := searchNext_st exec c s d hne hp' hok'
-  rw [searchNext_factors exec c s d hne hp' hok'] at h
+    intro h0; rw [searchNext_empty sh exec c s d h0] at h; revert h; decide
+  obtain ⟨f1, f2, f3, f4, f5, f6⟩ := prepare_fresh_fwd sh (s := s) hd hfresh
+  have hp' : PgOk (prepare sh s d).startPgno := by rw [f1]; exact hp
+  have hok' : StartOk sh c (prepare sh s d).startPgno := by rw [f1]; exact hok
+  have hst := searchNext_st sh exec c s d hne hp' hok'
+  rw [searchNext_factors sh exec c s d hne hp' hok'] at h
   have hr1 := statusOf_success h
   have hdir : dirOf d = 1 := by unfold dirOf; simp [hd]
   have hcb : callbackOf exec d = pageFwd exec := by unfold callbackOf; simp [hd]
   rw [hdir, hcb, f1, f2] at hr1 hst
-  generalize hrp : runPos (pageFwd exec) c (walkPositions c s.stopPgno0 s.stopSubno0 1) (prepare s d) = rp at hr1 hst
+  generalize hrp : runPos (pageFwd exec) c (walkPositions sh c s.stopPgno0 s.stopSubno0 1) (prepare sh s d) = rp at hr1 hst
   obtain ⟨r, sf⟩ := rp
   simp only at hr1 hst
   subst hr1
-  have hst' : (searchNext exec walkFuel c s d).st = sf := by rw [hst]; simp
+  have hst' : (searchNext sh exec walkFuel c s d).st = sf := by rw [hst]; simp
   rw [hst']
   obtain ⟨pre, x, post, e, s0, hL, hlx, hfz, hcall, hpre⟩ := runPos_hit_fwd exec c _ _ _ _ hrp (by decide)
   obtain ⟨xp, xs, xw⟩ := x
@@ -110,11 +110,11 @@ theorem searchNext_first_success_fwd (exec : Exec) (c : Cache) (s : SearchSt) (d
   rw [← hsf] at hpg1 hpg2
   rw [hpg1, hpg2]
   -- the walk: sorted, starts at (P, S)
-  have hstart : startSub c s.stopPgno0 s.stopSubno0 = s.stopSubno0 := startSub_exact c _ _ hS.2.2
+  have hstart : startSub sh c s.stopPgno0 s.stopSubno0 = s.stopSubno0 := startSub_exact sh c _ _ hS.2.2
   obtain ⟨g1, g2⟩ := positions_sorted_fwd c walkFuel s.stopPgno0 s.stopSubno0 false hp
-  have hsorted : (walkPositions c s.stopPgno0 s.stopSubno0 1).Pairwise LtF := by
+  have hsorted : (walkPositions sh c s.stopPgno0 s.stopSubno0 1).Pairwise LtF := by
     unfold walkPositions; rw [hstart, List.pairwise_cons]; exact ⟨fun y hy => (g1 y hy).1, g2⟩
-  have hxL : (xp, xs, xw) ∈ walkPositions c s.stopPgno0 s.stopSubno0 1 := by rw [hL]; simp
+  have hxL : (xp, xs, xw) ∈ walkPositions sh c s.stopPgno0 s.stopSubno0 1 := by rw [hL]; simp
   have hxs : (e.subno : Int) = xs := lookupX_subno hlx
   -- where x lies
   have hxpos : PgOk xp ∧ ((xw = false ∧ key xp xs ≥ key s.stopPgno0 s.stopSubno0) ∨ xw = true) := by
@@ -141,9 +141,9 @@ theorem searchNext_first_success_fwd (exec : Exec) (c : Cache) (s : SearchSt) (d
     have := (c.slots xp.toNat).stat.subMax.toNat_lt
     omega
   -- the code of x in the initial context
-  have hcodex : codeFwd exec (prepare s d) xp.toNat e xw = 1 := by
+  have hcodex : codeFwd exec (prepare sh s d) xp.toNat e xw = 1 := by
     rw [← codeFwd_frozen exec hfz, ← pageFwd_fst, hcall]
-  have hnsx := codeFwd_not_stop (by rw [hcodex]; decide : codeFwd exec (prepare s d) xp.toNat e xw ≠ -1)
+  have hnsx := codeFwd_not_stop (by rw [hcodex]; decide : codeFwd exec (prepare sh s d) xp.toNat e xw ≠ -1)
   refine ⟨by rw [hxpn]; exact hpx, ?_, ?_⟩
   · -- the page returned matches
     refine ⟨e, by rw [hxpn, hxs]; exact hlx, hlop, ?_⟩
@@ -175,7 +175,7 @@ theorem searchNext_first_success_fwd (exec : Exec) (c : Cache) (s : SearchSt) (d
         simp only [ge_iff_le, Int.le_refl, if_true, Bool.true_and, decide_eq_false_iff_not] at hnsx
         omega
       -- the position of (q, t) that the walk probes before x
-      have hy : ∃ wy, ((q : Int), (t : Int), wy) ∈ walkPositions c s.stopPgno0 s.stopSubno0 1 ∧
+      have hy : ∃ wy, ((q : Int), (t : Int), wy) ∈ walkPositions sh c s.stopPgno0 s.stopSubno0 1 ∧
           LtF ((q : Int), (t : Int), wy) (xp, xs, xw) := by
         unfold passRank at hle
         unfold PgOk at hp hq hpx
@@ -220,22 +220,22 @@ theorem searchNext_first_success_fwd (exec : Exec) (c : Cache) (s : SearchSt) (d
       have hypre := mem_pre_of_lt hsorted hyL hylt
       have hcodey := hpre _ hypre e' (by simpa using hl')
       simp only [Int.toNat_natCast] at hcodey
-      have hnsy := codeFwd_not_stop (by rw [hcodey]; decide : codeFwd exec (prepare s d) q e' wy ≠ -1)
+      have hnsy := codeFwd_not_stop (by rw [hcodey]; decide : codeFwd exec (prepare sh s d) q e' wy ≠ -1)
       rw [codeFwd_fresh exec f5 f6 _ _ _ hlop' hnsy] at hcodey
       cases hx' : exec {} (hayFwd e'.text (-1) 0).1 with
       | none => rw [hx'] at hsome'; simp at hsome'
       | some mm => rw [hx'] at hcodey; simp at hcodey
 
 /-- **first call of a fresh forward pass, NOT_FOUND**: no cached level one page contains the pattern -/
-theorem searchNext_not_found_exact_fwd (exec : Exec) (c : Cache) (s : SearchSt) (d : Int) (hd : d > 0)
-    (hfresh : s.dir = 0) (hcov : Covered c) (hp : PgOk s.stopPgno0) (hok : StartOk c s.stopPgno0)
-    (hS : 0 ≤ s.stopSubno0 ∧ s.stopSubno0 ≤ 0xFFFF ∧ s.stopSubno0 ≠ ANY_SUBNO)
-    (h : (searchNext exec walkFuel c s d).res = .ret SEARCH_NOT_FOUND) :
+theorem searchNext_not_found_exact_fwd (sh : Shape) (exec : Exec) (c : Cache) (s : SearchSt) (d : Int) (hd : d > 0)
+    (hfresh : s.dir = 0) (hcov : Covered c) (hp : PgOk s.stopPgno0) (hok : StartOk sh c s.stopPgno0)
+    (hS : 0 ≤ s.stopSubno0 ∧ s.stopSubno0 ≤ 0xFFFF ∧ (sh.startExact = true ∨ s.stopSubno0 ≠ ANY_SUBNO))
+    (h : (searchNext sh exec walkFuel c s d).res = .ret SEARCH_NOT_FOUND) :
     ∀ (q t : Nat), PgOk q → ¬ Matches exec c q t := by
   have hne : c.nCached ≠ 0 := by
-    intro h0; rw [searchNext_empty exec c s d h0] at h; revert h; decide
+    intro h0; rw [searchNext_empty sh exec c s d h0] at h; revert h; decide
   intro q t hq ⟨e, hl, hlop, hm⟩
-  have hall := searchNext_not_found_fresh_fwd exec c s d hd hfresh hne hp hok h
+  have hall := searchNext_not_found_fresh_fwd sh exec c s d hd hfresh hne hp hok h
   have hmem : e ∈ (c.slots (q : Int).toNat).chain := lookupX_mem hl
   simp only [Int.toNat_natCast] at hmem
   obtain ⟨c1, c2, c3⟩ := hcov q e hmem
@@ -244,7 +244,7 @@ theorem searchNext_not_found_exact_fwd (exec : Exec) (c : Cache) (s : SearchSt) 
     rw [inRange_iff]; unfold Cache.stat; simp only [Int.toNat_natCast]; exact ⟨c1, by omega, by omega⟩
   have htb : (t : Int) ≤ 0xFFFF := by
     have := (c.slots q).stat.subMax.toNat_lt; omega
-  have hstart : startSub c s.stopPgno0 s.stopSubno0 = s.stopSubno0 := startSub_exact c _ _ hS.2.2
+  have hstart : startSub sh c s.stopPgno0 s.stopSubno0 = s.stopSubno0 := startSub_exact sh c _ _ hS.2.2
   have hnone : exec {} (hayFwd e.text (-1) 0).1 = none := by
     by_cases hk : key q t < key s.stopPgno0 s.stopSubno0
     · refine hall ((q : Int), (t : Int), true) ?_ (Or.inr hk) e hl hlop
@@ -307,14 +307,14 @@ theorem runPos_fwd_range (exec : Exec) (c : Cache) : ∀ (L : List Pos) (s : Sea
         · right; exact h
 
 /-- a forward `vbi_search_next` on a non-empty cache answers SUCCESS or NOT_FOUND -/
-theorem searchNext_fwd_status (exec : Exec) (c : Cache) (s : SearchSt) (d : Int) (hd : d > 0)
-    (hne : c.nCached ≠ 0) (hp : PgOk (prepare s d).startPgno) (hok : StartOk c (prepare s d).startPgno) :
-    (searchNext exec walkFuel c s d).res = .ret SEARCH_SUCCESS ∨
-    (searchNext exec walkFuel c s d).res = .ret SEARCH_NOT_FOUND := by
-  rw [searchNext_factors exec c s d hne hp hok]
+theorem searchNext_fwd_status (sh : Shape) (exec : Exec) (c : Cache) (s : SearchSt) (d : Int) (hd : d > 0)
+    (hne : c.nCached ≠ 0) (hp : PgOk (prepare sh s d).startPgno) (hok : StartOk sh c (prepare sh s d).startPgno) :
+    (searchNext sh exec walkFuel c s d).res = .ret SEARCH_SUCCESS ∨
+    (searchNext sh exec walkFuel c s d).res = .ret SEARCH_NOT_FOUND := by
+  rw [searchNext_factors sh exec c s d hne hp hok]
   have hcb : callbackOf exec d = pageFwd exec := by unfold callbackOf; simp [hd]
   rw [hcb]
-  rcases runPos_fwd_range exec c (walkPositions c (prepare s d).startPgno (prepare s d).startSubno (dirOf d)) (prepare s d)
+  rcases runPos_fwd_range exec c (walkPositions sh c (prepare sh s d).startPgno (prepare sh s d).startSubno (dirOf d)) (prepare sh s d)
     with h | h
   · right; rw [h]; rfl
   · left; rw [h]; rfl
